@@ -146,7 +146,7 @@ func rlModelTokens(tok string) []string {
 		return []string{"h500", "w"}
 	case "flush", "flusherr":
 		return []string{"f"}
-	case "copy", "copyfile", "wstr":
+	case "copy", "copyfile", "wstr", "w0":
 		return []string{"w"}
 	}
 	return []string{tok}
@@ -194,6 +194,8 @@ func rlExec(store *httpd.Store, script string) {
 			}
 		case tok == "wstr":
 			io.WriteString(store.W, "s")
+		case tok == "w0":
+			store.W.Write(nil) // a zero-length first write still commits the implicit 200
 		case tok == "r":
 			return
 		case tok == "pa":
@@ -803,7 +805,7 @@ func rlRandomScript(r *Rng) []string {
 		case c < 45:
 			s = append(s, "w")
 		case c < 55:
-			s = append(s, Pick(r, []string{"R", "Rw", "J", "E404", "E500", "flush", "flusherr", "flush", "flusherr", "copy", "copyfile", "wstr", "copy", "copyfile"}))
+			s = append(s, Pick(r, []string{"R", "Rw", "J", "E404", "E500", "flush", "flusherr", "flush", "flusherr", "copy", "copyfile", "wstr", "copy", "copyfile", "w0", "w0"}))
 		case c < 90:
 			s = append(s, "p"+strconv.Itoa(1+r.Intn(rlKinds)))
 		case c < 94:
@@ -873,7 +875,7 @@ func (rr *rlRun) judge(c rlCase, o rlObs, shrink bool) {
 		s.Count("behaviour.return-after-writing")
 	}
 	for _, t := range c.Script {
-		if t == "flush" || t == "flusherr" || t == "copy" || t == "copyfile" || t == "wstr" {
+		if t == "flush" || t == "flusherr" || t == "copy" || t == "copyfile" || t == "wstr" || t == "w0" {
 			s.Count("behaviour.uses-" + t)
 		}
 	}
@@ -1061,7 +1063,7 @@ func runRelay(cfg Cfg) {
 	// 4. a real loopback server (net/http's own ResponseWriter: Flusher, FlushError, io.ReaderFrom, …),
 	// 32 requests in flight — in BOTH tiers: every script of length <= 2 over the writing entry points
 	// and terminators (so e.g. "copy,p1", "copyfile,p1", "flusherr,p1", "wstr,p1"), then random ones
-	small := rlAllScripts([]string{"h200", "h404", "w", "flush", "flusherr", "copy", "copyfile", "wstr", "p1", "pa", "r"}, 2)
+	small := rlAllScripts([]string{"h200", "h404", "w", "w0", "flush", "flusherr", "copy", "copyfile", "wstr", "p1", "pa", "r"}, 2)
 	for _, h := range handlers {
 		r := rng.Fork()
 		m := rlNewMux(h, 4, false, true)
